@@ -119,6 +119,7 @@ def case_strategy(draw, percpu=False):
             "kf2": kf2, "vf2": vf2, "keys2": keys2,
             "loc": draw(st.sampled_from([None, "B", "H", "I", "Q"])),
             "loc_first": draw(st.booleans()),
+            "hv_base": draw(st.sampled_from([False, False, True])),
             "size": draw(st.integers(2, 6)), "lru": draw(st.booleans()),
             "exec": draw(st.sampled_from(["fake", "fake", "kernel"])),
             "derived": draw(st.booleans()),
@@ -152,6 +153,10 @@ def real_kernel(ncpu=None):
             yield KernelExec()
         finally:
             tr.close_all()
+
+
+class AfterLoad(Exception):
+    pass
 
 
 def build(case, f):
@@ -282,9 +287,21 @@ def build(case, f):
         e.exit(XDPExitCode.TX)
 
     ns["program"] = program
-    cls = type("P", (XDP,), ns)
+    if case.get("hv_base"):
+        # the hash map and its variables come from a base class
+        inherited = {k: ns.pop(k) for k in ["hmap"] + [
+            f"hv{i}" for i in range(len(hv))]}
+        cls = type("P", (type("PBase", (XDP,), inherited),), ns)
+    else:
+        cls = type("P", (XDP,), ns)
     e = cls()
-    e.load()
+    try:
+        e.load()
+    except Exception as err:
+        if getattr(e, "loaded", False):
+            # the kernel took the program; setting up the maps failed
+            raise AfterLoad(f"{type(err).__name__}: {err}") from err
+        raise
     if two:
         e.Key2, e.Value2 = Key2, Value2
     return e, Key, Value
@@ -317,6 +334,11 @@ def run_case(case, judge_overruns=False):
                         classes=["rejected:AssembleError"])
         except HarnessError:
             raise
+        except AfterLoad as err:
+            return fail(f"the program was loaded, but initialising its maps "
+                        f"(the declared defaults) raised {err}"
+                        f"{' (hash-map variables declared in a base class)' if case.get('hv_base') else ''}",
+                        bucket="after-load")
         except Exception as err:
             return dict(ok=True, nontrivial=False,
                         classes=[f"build-error:{type(err).__name__}"],
